@@ -128,6 +128,11 @@ concrete replay):
   `C16-w4-future-send-regardless-of-iterator` (an `unsafe impl Send for MRBFuture` that forgets the iterator): futures were
   outside the universe → `Wrap.future` in the Traits model and in the rustc probes (a future holds `&mut` to its
   iterator); bounds on other type parameters count as satisfiable.
+* Re-running the seeds of the first three waves against the final harness showed one regression:
+  `C02-w2-push-slice-wrap-publishes-before-tail-copy` had been found by one program in 3000, and the new `alive` operation
+  shifted the random stream so that the quick tier no longer drew it. Detection by a single lucky draw is not detection:
+  the minimised replay of *every* seed the concurrency engine has ever caught (24 programs with their schedules) is now in
+  `corpus/conc/` and runs first on every check, and the quick tier draws 10000 programs instead of 3000.
 * `C07-w2-release-before-flag-clear` and friends are additionally refused by the drop-protocol replay on the Lean machine
   (`decrement-before-flag-clear`).
 
@@ -136,7 +141,7 @@ that runs first on every check; on the unchanged tree they pass.
 
 ### 10.2 Harmless refactorings (must not be reported)
 
-Forty-seven behaviour-preserving refactorings in four batches, each batch written by independent agents that saw nothing of
+Fifty-five behaviour-preserving refactorings in five batches, each batch written by independent agents that saw nothing of
 /verif (`harmless/*/patch.diff` + `meta.json`): `h1`–`h11` (renamed locals and parameters, `if` ↔ `match` ↔ early return,
 negated comparisons, extracted/inlined private helpers, reordered independent private-field writes, one memory ordering
 *strengthened*, bound sub-expressions, reformatting; `h11` is an equivalent mutant suggested by a seeding agent),
@@ -149,18 +154,21 @@ helpers in both buffer variants, std calls replaced by their definitions in the 
 attempt – register – attempt, named locals in the constructors, a `release()` behind `BufRef`'s destructor, an mmap helper)
 and `n1`–`n7`, whose authors were asked for ideas not used before (`(index + count) % len`, a `Window` struct for the chunk
 geometry, `while` loops with a counter, `_available` as a trait default, `len − count + idx`, `poll` as a `for` over
-`[false, true]`, the split preamble as provided methods of `IterManager`).
+`[false, true]`, the split preamble as provided methods of `IterManager`), and finally `q1`–`q8`, deliberately *ordinary*
+clean-ups of the central functions (renamed parameters and locals, `match bool` → `if`, hoisted sub-expressions, `?`, narrowed
+`unsafe` blocks, `Self`, `break value` → `return`, a private `release()`/`count_alive()`), written after all generalisations
+to see what an everyday pull request does: all eight were quiet at once.
 Each keeps the pinned suite green and compiles with `async` and `vmem`. `tools/harmlesstest.sh` applies each to /repo,
 runs all 18 checks and reverts; a VIOLATION there is a false alarm (of the kind the brief allows — a broken proof or
 correspondence with no failing input — but an alarm nonetheless).
 
 How the batches went, each against the machinery as it stood when the batch arrived: of `h1`–`h10`, 7 broke at least one
-proof obligation (`no-failing-input-found`); of `g1`–`g13`, 11; of the sixteen `k`/`m`, 10; of `n1`–`n7`, all seven — never a concrete failure, always
+proof obligation (`no-failing-input-found`); of `g1`–`g13`, 11; of the sixteen `k`/`m`, 10; of `n1`–`n7`, all seven; of the ordinary `q1`–`q8`, none — never a concrete failure, always
 the translator meeting a construct outside its subset, a lemma or conformance theorem that depended on the spelling of a
 generated definition, or a textual pin. After each batch the translator, the lemmas and the conformance theorems were
 generalised as described in §2.1 and §8 (no check was loosened: every generalisation still rejects the seeded changes of
 §10.1, which were re-run). The four that still alarm are outside what the translator reads and are left so (§9). Current
-state, all forty-seven against the final machinery:
+state, all fifty-five against the final machinery:
 
 {chr(10).join(htab)}
 """
